@@ -165,7 +165,7 @@ func (p *Parser) parseOperand() (core.Object, error) {
 		// Check if it's actually an operator
 		// Peek ahead to see if followed by whitespace
 		end := p.pos
-		for end < len(p.data) && !isWhitespace(p.data[end]) {
+		for end < len(p.data) && !isWhitespace(p.data[end]) && !isDelimiter(p.data[end]) {
 			end++
 		}
 		token := string(p.data[p.pos:end])
